@@ -5,20 +5,20 @@ use elf::file::Class;
 #[kani::proof]
 #[kani::unwind(8)]
 pub fn verneed_1x2_g3_g0() {
-    verneed_1x2::<3, 0>(Class::ELF32);
+    verneed_1x2::<3, 0>(Class::ELF32, false);
 }
 #[kani::proof]
 #[kani::unwind(8)]
 pub fn verneed_1x2_g0_g0() {
-    verneed_1x2::<0, 0>(Class::ELF32);
+    verneed_1x2::<0, 0>(Class::ELF32, true);
 }
 #[kani::proof]
 #[kani::unwind(8)]
 pub fn verdef_1x2_g0_g3() {
-    verdef_1x2::<0, 3>(Class::ELF64);
+    verdef_1x2::<0, 3>(Class::ELF64, true);
 }
 #[kani::proof]
 #[kani::unwind(8)]
 pub fn verdef_1x2_g0_g0() {
-    verdef_1x2::<0, 0>(Class::ELF64);
+    verdef_1x2::<0, 0>(Class::ELF64, false);
 }
